@@ -3,6 +3,7 @@ package drive
 import (
 	"bytes"
 	"encoding/hex"
+	"sort"
 	"encoding/binary"
 	"errors"
 	"fmt"
@@ -754,6 +755,16 @@ func (r *readerRun) exec(sc *xport.ScriptConn, outp *[]Ev) (out []Ev) {
 			acc = append(acc, b...)
 			cand, any := contentCand()
 			out = append(out, Ev{"e": "RA", "n": len(b), "err": r.classify(err), "obs": r.takeObs(), "cand": cand, "any": any})
+		case "JA":
+			// io.ReadAll(JoinMessages(c, term)): runs until NextReader fails
+			term := bytes.Repeat([]byte{'#'}, op.K)
+			var b []byte
+			var err error
+			measure(func() { b, err = io.ReadAll(websocket.JoinMessages(c, string(term))) })
+			rd = nil
+			segs, rest, restOK := r.splitJoined(b, term)
+			out = append(out, Ev{"e": "JA", "tl": op.K, "n": len(b), "segs": segs, "rest": rest, "restOK": restOK,
+				"err": r.classify(err), "obs": r.takeObs()})
 		case "SRD":
 			// SetReadDeadline is a pass-through: it must not change what the read API reports
 			err := c.SetReadDeadline(time.Time{})
@@ -798,4 +809,46 @@ func (r *readerRun) expectFor(acc []byte) ([]byte, bool) {
 		}
 	}
 	return found, n == 1
+}
+
+// splitJoined recognises, in stream order, the expected message contents (each
+// followed by term) at the front of b; the unmatched tail must be a prefix of
+// some later message's content.
+func (r *readerRun) splitJoined(b, term []byte) (segs []int, rest int, restOK bool) {
+	segs = []int{}
+	var starts []int
+	for s := range r.expect {
+		starts = append(starts, s)
+	}
+	sort.Ints(starts)
+	pos, last := 0, 0
+	for {
+		found := false
+		for _, s := range starts {
+			if s <= last || r.expect[s] == nil {
+				continue
+			}
+			e := r.expect[s]
+			if pos+len(e)+len(term) <= len(b) && bytes.Equal(b[pos:pos+len(e)], e) && bytes.Equal(b[pos+len(e):pos+len(e)+len(term)], term) {
+				segs = append(segs, s)
+				pos += len(e) + len(term)
+				last = s
+				found = true
+				break
+			}
+		}
+		if !found {
+			break
+		}
+	}
+	rest = len(b) - pos
+	restOK = rest == 0
+	if rest > 0 {
+		for _, s := range starts {
+			if s > last && r.expect[s] != nil && rest <= len(r.expect[s]) && bytes.Equal(r.expect[s][:rest], b[pos:]) {
+				restOK = true
+			}
+		}
+	}
+	return
 }
